@@ -115,7 +115,10 @@ func canonDetail(s string) string {
 var c03Breakers = []string{"{'a':1", "{'a':", "{'a'", "g9(1,", "g9(", "[1,2", "[1..", "[", "x[", "x[1:", "`a{", "`a{x", "`a{% if 1 {", "if 1 {", "if 1 { 2 } else {",
 	"while 1 {", "while x { break", "func g9(n) {", "func g9(", "1 ? 2 :", "1 ? 2, 3 ?", "x ||", "x &&", "x ??", "(1+", "(", "2d", "&y =", "&y.x =", "this.", "x.y =", "x[0] =",
 	"x = ", "1 +", "1 *", "'abc", "\"abc", "\x1eabc", "return (", "// #EnableDice wod", "x.len(", "[1,2]kh(", "1 <", "1 ==", "x = y =", "{1:2, 3:", "[[1], [2", "reason text", "因为 某事",
-	"1 ? 2 : (", "x[1][", "{'a': [1,", "`{%", "`{", "f(`", "- ", "+ (", "~", "@@", "1 2 3", ")", "]", "}", "else { 1 }", ", 2"}
+	"1 ? 2 : (", "x[1][", "{'a': [1,", "`{%", "`{", "f(`", "- ", "+ (", "~", "@@", "1 2 3", ")", "]", "}", "else { 1 }", ", 2",
+	// continuation tails: an operator (or a dice modifier) followed by an operand that breaks off
+	"+ 'abc", "+ \"abc", "- `x{3", "* {'a':1", "+ {'a':", "|| [1,", "?? (2", "== 'x", "+ (2", "* (2+", "&& `a{", "< {'k'", "+ \x1eab", "? 1 : 'z", "? 'q",
+	"k(2", "kh(3 reason", "q(1+", "min(2", "max(x", "dl(n", "(2", "[1", ".x(", "d(2", "d(x"}
 
 type flagCfg struct{ wod, coc, fate, dc, nostmt bool }
 
